@@ -189,6 +189,22 @@ func (x *Exec) convert(s *State, v *Term, from, to types.Type, p token.Pos) *Ter
 		return x.wrapInt(v, to)
 	case isInterface(to) && !isInterface(from):
 		return x.box(s, v, from)
+	case isString(to) && isSlice(from) && !isByteSlice(from):
+		// string([]rune): UTF-8 encoding is not modelled: an arbitrary string of at least as many bytes as runes
+		x.abstract("string([]rune) (contents arbitrary)")
+		res := x.havocValue(s, "str", to)
+		s.assume(Cmp(">=", Field(res, 2), Field(v, 2)))
+		return res
+	case isSlice(to) && isString(from) && !isByteSlice(to):
+		// []rune(string): UTF-8 decoding is not modelled: a new array of at most len(s) arbitrary runes (exactly
+		// len(s) for an ASCII string is not assumed either)
+		x.abstract("[]rune(string) (contents arbitrary)")
+		blk := x.allocBlock(s)
+		n := x.freshVar("nrunes", SInt)
+		s.assume(And(Cmp("<=", IntLit(0), n), Cmp("<=", n, Field(v, 2)), Implies(Cmp(">", Field(v, 2), IntLit(0)), Cmp(">", n, IntLit(0)))))
+		mem := x.memGet(s, SInt)
+		x.heapSet(s, memName(SInt), Store(mem, blk, x.freshVar("runes", ArrayOf(SInt, SInt))))
+		return Mk(SliceSort, blk, IntLit(0), n, n)
 	case isString(to) && isSlice(from):
 		// string(bytes): same contents
 		es := SInt
@@ -2097,4 +2113,13 @@ func mentionsLogBuiltin(text string) bool {
 		}
 	}
 	return false
+}
+
+func isByteSlice(t types.Type) bool {
+	st, ok := t.Underlying().(*types.Slice)
+	if !ok {
+		return false
+	}
+	b, ok := st.Elem().Underlying().(*types.Basic)
+	return ok && (b.Kind() == types.Uint8 || b.Kind() == types.Byte)
 }
